@@ -1,28 +1,4 @@
 // ---- shared specification: SendChannelReliable / UnackedMessage (spec functions and lemmas only) ----
-impl UnackedMessage {
-    pub open spec fn msg(&self) -> Bytes {
-        match *self {
-            UnackedMessage::Small { message, last_sent } => message,
-            UnackedMessage::Sliced { message, num_slices, num_acked_slices, next_slice_to_send, acked, last_sent } => message,
-        }
-    }
-
-    /// representation invariant of one queued message
-    pub open spec fn wf(&self) -> bool {
-        match *self {
-            UnackedMessage::Small { message, last_sent } => message@.len() <= 1200,
-            UnackedMessage::Sliced { message, num_slices, num_acked_slices, next_slice_to_send, acked, last_sent } => {
-                &&& message@.len() > 1200
-                &&& (num_slices - 1) * 1200 < message@.len() <= num_slices * 1200
-                &&& acked@.len() == num_slices
-                &&& last_sent@.len() == num_slices
-                &&& num_acked_slices == count_true(acked@)
-                &&& num_acked_slices < num_slices
-            }
-        }
-    }
-}
-
 impl SendChannelReliable {
     pub open spec fn len_w(m: Map<u64, UnackedMessage>) -> spec_fn(u64) -> nat {
         |id: u64| if m.contains_key(id) { m[id].msg()@.len() } else { 0nat }
